@@ -22,7 +22,7 @@ def arg(t, v):
     return {"t": t, "b": b32(v) if t in ("i32", "f32") else b64(v)}
 
 
-def build_module(maxpages, memimport=False, minpages=1):
+def build_module(maxpages, memimport=False, minpages=1, shared=False):
     types, funcs, exports = [], [], []
 
     def ty(p, r):
@@ -49,7 +49,7 @@ def build_module(maxpages, memimport=False, minpages=1):
     add("init0", ["i32", "i32", "i32"], [], [["local.get", 0], ["local.get", 1], ["local.get", 2], ["memory.init", 0]])
     add("init1", ["i32", "i32", "i32"], [], [["local.get", 0], ["local.get", 1], ["local.get", 2], ["memory.init", 1]])
     m = {"types": types, "funcs": funcs, "exports": exports,
-         "memory": {"min": minpages, "max": maxpages},
+         "memory": dict({"min": minpages, "max": maxpages}, **({"shared": True} if shared else {})),
          "data": [{"mode": "passive", "bytes": SEG0}, {"mode": "passive", "bytes": SEG1}] +
                  ([{"mode": "active", "offset": ["i32.const", b32(PAGE - 4)], "bytes": [1, 2, 3, 4]}] if minpages else []),
          "uses_memory_init": True}
@@ -154,9 +154,11 @@ def main():
     nhist, length = (160, 14) if tier == "quick" else (3000, 24)
     items = []
     mods = {3: build_module(3), None: build_module(None), 1: build_module(1)}
+    # a shared memory (allocated at its maximum up front) has the same single-threaded meaning
+    shared3 = build_module(3, shared=True)
     for h in range(nhist):
         mp = rng.choice([3, 3, 3, None, 1])
-        items.append({"id": "h%d" % h, "module": mods[mp],
+        items.append({"id": "h%d" % h, "module": shared3 if mp == 3 and h % 3 == 0 else mods[mp],
                       "script": [{"op": "instantiate", "binds": {"mem": 0, "table": 0, "globals": []}}] + history(rng, mp, length)})
     # a declared maximum of zero pages is a maximum
     zero = build_module(0, minpages=0)
